@@ -100,7 +100,8 @@ Proof.
   rewrite udp_limit_gen_spec. reflexivity.
 Qed.
 
-(* the code as pinned: a request without EDNS is held to the configured limit, not to 512 *)
+(* the code before fix 2e0728b (flag false; kept as a statement about that variant of the
+   model): a request without EDNS was held to the configured limit, not to 512 *)
 Lemma limit_no_edns_unfixed h : udp_limit_gen false None (Some h) = Ok h.
 Proof. rewrite udp_limit_gen_spec. reflexivity. Qed.
 
